@@ -189,7 +189,10 @@ func cmdCheck(args []string) int {
 
 	timeout := 10 * time.Second
 	if *tier == "thorough" {
+		// as deep as this machinery goes: every obligation re-decided from scratch (no cache)
+		// with twelve times the solver budget
 		timeout = 120 * time.Second
+		*nocache = true
 	}
 	cfg := &SolverCfg{Timeout: timeout, CacheDir: filepath.Join(*verif, ".cache"), OutDir: filepath.Join(*verif, ".obligations", prop), NoCache: *nocache, Workers: 12}
 	os.RemoveAll(cfg.OutDir)
@@ -205,7 +208,7 @@ func cmdCheck(args []string) int {
 	}
 	if len(retry) > 0 && len(retry) <= 40 {
 		cfg2 := *cfg
-		cfg2.Timeout = 6 * timeout
+		cfg2.Timeout = 15 * timeout
 		if cfg2.Timeout > 180*time.Second {
 			cfg2.Timeout = 180 * time.Second
 		}
